@@ -5,6 +5,10 @@ CONSTANTS
   ThetaVecs <- Theta1
   AllCompletions = FALSE
   FW = 8
+  MaxRounds = 1
+  MaxRefresh = 1
+  PrivateSlice = TRUE
+  KeepHist = FALSE
   CheckRand = TRUE
   RandWMax = 8
   CheckUnif = TRUE
